@@ -71,7 +71,7 @@ func (sess *Session) writeOnce(wrt http.ResponseWriter, req *http.Request) {
 
 		case topic := <-sess.detach:
 			// Request to detach the session from a topic.
-			sess.delSub(topic)
+			sess.delStaleSub(topic)
 			// No 'return' statement here: continue waiting
 
 		case <-time.After(pingPeriod):
